@@ -146,6 +146,26 @@ func refSingleRepertoire() []int {
 	return refSingleRep
 }
 
+// refRepertoire: the runes ≥ U+00A0 of one single-byte charset of the table (sorted by byte)
+func refRepertoire(name string) []int {
+	enc := refEncoding(name)
+	if enc == nil || refIsMulti(name) {
+		return nil
+	}
+	var out []int
+	d := enc.NewDecoder()
+	for b := 0x80; b < 0x100; b++ {
+		o, err := d.Bytes([]byte{byte(b)})
+		if err != nil {
+			continue
+		}
+		if rs := []rune(string(o)); len(rs) == 1 && rs[0] >= 0xA0 && rs[0] != 0xFFFD {
+			out = append(out, int(rs[0]))
+		}
+	}
+	return out
+}
+
 func sortInts(l []int) {
 	for i := 1; i < len(l); i++ {
 		for j := i; j > 0 && l[j] < l[j-1]; j-- {
